@@ -14,7 +14,7 @@ func init() {
 		ID:          "C01",
 		Explanation: "(R1.1) Solver.Solve can only return Sat or Unsat: the range of every value that can flow into the status, minus what the loop guard excludes, is {Sat, Unsat}, on every path; (R1.2) every clause stored in the clause database (problem clauses and learned clauses) is registered in the watch lists by the function that stores it; (R1.4) every learned clause dropped from the database is removed from the watch lists in the same step; (R1.5) the model published by Solve is a fresh copy taken when Sat is concluded, never an alias of the working assignment.",
 		NotDecided:  "that the verdict is right and the model satisfies every clause: this depends on watch positions, learning, restarts and deletion timing, i.e. on the search history.",
-		Rules:       []ruleFn{ruleR1_1, ruleR1_2, ruleR1_4, ruleR1_5, ruleR1_7, ruleR1_8, ruleR1_9, ruleR1_10, ruleR1_11, ruleR1_12, ruleR1_13, ruleR2_2, ruleR2_6, ruleR2_7, ruleR2_8, ruleR14_3, ruleR13_7},
+		Rules:       []ruleFn{ruleR1_1, ruleR1_2, ruleR1_4, ruleR1_5, ruleR1_7, ruleR1_8, ruleR1_9, ruleR1_10, ruleR1_11, ruleR1_12, ruleR1_13, ruleR2_2, ruleR2_6, ruleR2_7, ruleR2_8, ruleR14_3, ruleR13_7, ruleR1_14, ruleR1_15},
 	})
 }
 
@@ -423,13 +423,35 @@ func unwatchers(w *World) map[*ssa.Function]bool {
 			}
 			for _, f := range []string{"wlist", "wlistBin", "wlistPb", "wlistCardAMO"} {
 				if _, ok := isFieldLoad(ia.X, "solver.watcherList", f); ok {
-					if sl, ok := st.Val.(*ssa.Slice); ok && sl.High != nil {
-						shrinks = true
+					// the shortened list itself, or the result of a helper that returns it (`= removeFrom(list, c)`)
+					for _, leaf := range w.resultLeaves(st.Val) {
+						if sl, ok := leaf.(*ssa.Slice); ok && sl.High != nil {
+							shrinks = true
+						}
 					}
 				}
 			}
 		})
-		if shrinks {
+		// a function that also files the clause under a watch list is a re-watcher (updateWatchPB), not an unwatcher
+		grows := false
+		allInstrs(fn, func(ins ssa.Instruction) {
+			st, ok := ins.(*ssa.Store)
+			if !ok {
+				return
+			}
+			c, ok := st.Val.(*ssa.Call)
+			if !ok {
+				return
+			}
+			if b, isB := c.Call.Value.(*ssa.Builtin); !isB || b.Name() != "append" {
+				return
+			}
+			// through `wlist[x] = append(...)` or a pointer to the element (`ni := &wlist[x]; *ni = append(*ni, c)`)
+			if strings.Contains(chainOf(st.Addr), ".wlist") {
+				grows = true
+			}
+		})
+		if shrinks && !grows {
 			out[fn] = true
 		}
 	}
